@@ -4,6 +4,7 @@ package run
 //
 //vf:job C16 quick VF_C16_Rump pages=1 batch=1..2 cfg=0..4
 //vf:job C16 quick VF_C16_Rump pages=2 batch=2 cfg=0
+//vf:job C16 quick VF_C16_Rump pages=1 batch=2 cfg=5
 //vf:job C16 thorough VF_C16_Rump pages=2 batch=1..2 cfg=0..4
 //vf:job C06 quick VF_C16_Rump pages=1 batch=2 cfg=2..3
 //vf:job C06 thorough VF_C16_Rump pages=1 batch=2 cfg=0..4
@@ -154,14 +155,18 @@ func VF_C16_Rump() {
 	case 3:
 		keyBlack = []string{vfStr("prefix", 1)}
 		conf.Options.FilterKeyBlacklist = keyBlack
-	case 4:
+	case 4, 5:
 		conf.Options.BigKeyThreshold = 12
 	}
 	// source keyspace: db 0 with `pages` pages (the second one possibly empty), db 1 with one page
 	src := &vfSource{dbs: map[int][][]vfSrcKey{}}
 	mk := func(name string) vfSrcKey {
 		k := vfSrcKey{name: name}
-		switch vfPick("state", 3) {
+		state := 1
+		if cfgIx != 5 {
+			state = vfPick("state", 3)
+		}
+		switch state {
 		case 0: // vanished between SCAN and DUMP
 			k.dump, k.pttl = nil, -2
 		case 1: // no expiry
@@ -172,7 +177,7 @@ func VF_C16_Rump() {
 			vfAssume(k.pttl < 1<<40)
 		}
 		if k.pttl != -2 {
-			if cfgIx == 4 && vfPick("big", 2) == 1 {
+			if cfgIx >= 4 && vfPick("big", 2) == 1 {
 				// a list of two elements as a DUMP payload (13+ bytes: above the threshold)
 				e1, e2 := vfBytes("e", 1), vfBytes("e", 1)
 				k.dump = append([]byte{1, 2, 1, e1[0], 1, e2[0]}, vfBytes("trailer", 10)...)
@@ -186,7 +191,10 @@ func VF_C16_Rump() {
 	n := 0
 	for p := 0; p < pages; p++ {
 		var pg []vfSrcKey
-		cnt := 1 + vfPick("pagelen", 2)
+		cnt := 1
+		if cfgIx != 5 {
+			cnt = 1 + vfPick("pagelen", 2)
+		}
 		if p == 1 {
 			cnt = vfPick("pagelen", 2) // the middle page may be empty
 		}
@@ -197,6 +205,11 @@ func VF_C16_Rump() {
 		src.dbs[0] = append(src.dbs[0], pg)
 	}
 	src.dbs[1] = [][]vfSrcKey{{mk("z1")}}
+	if cfgIx == 5 {
+		// big and ordinary keys mixed inside a database other than 0: the two target connections
+		// keep separate SELECT state
+		src.dbs[1] = [][]vfSrcKey{{mk("z1"), mk("z2")}}
+	}
 	tgt := vfNewRedis()
 	tgtBig := &vfRedis{dbs: tgt.dbs}
 	sc := &vfScanner{src: src}
